@@ -73,6 +73,12 @@ def unassignOfJson (self : Flav) (j : Json) : Except String Cmd := do
   let noaction ← jboolD j "noaction"
   pure (Cmd.unassignTag self tag name ver stack noaction)
 
+def removeOfJson (self : Flav) (j : Json) : Except String Cmd := do
+  let name ← jstr j "name"
+  let ver ← jstr j "version"
+  let noaction ← jboolD j "noaction"
+  pure (Cmd.remove self name ver noaction)
+
 def cmdOfJson (j : Json) : Except String WCmd := do
   let op ← (← j.getObjVal? "op").getStr?
   let user := (← jnatOpt j "user").getD 0
@@ -88,6 +94,7 @@ def cmdOfJson (j : Json) : Except String WCmd := do
       else if op == "undeclare" then undeclareOfJson self j
       else if op == "assignTag" then assignOfJson self j
       else if op == "unassignTag" then unassignOfJson self j
+      else if op == "remove" then removeOfJson self j
       else if op == "query" then pure (Cmd.query self)
       else throw s!"unknown op {op}"
     pure (.run user c crash)
@@ -106,6 +113,7 @@ def ofOutcome : Outcome → Json
   | .ok => "ok"
   | .refused => "Refused"
   | .notFound => "NotFound"
+  | .failed => "Other:RuntimeError"
 def ofTagOpt : Option Tag → Json
   | none => Json.null
   | some t => ofStr t
@@ -119,6 +127,7 @@ def ofEff : Eff → Json
   | .memAssign s t n f v => Json.arr #["memAssign", Json.num s, ofStr t, ofStr n, ofStr f, ofStr v]
   | .memUnassign s t n f => Json.arr #["memUnassign", Json.num s, ofStr t, ofStr n, ofStr f]
   | .save s f => Json.arr #["save", Json.num s, ofStr f]
+  | .rmTree d => Json.arr #["rmTree", ofDir d]
 def ofCache (c : CacheFile) : Json :=
   Json.mkObj [("user", Json.num c.user), ("stack", Json.num c.stack), ("flavor", ofStr c.flav),
               ("mtime", Json.num c.mtime), ("c", ofSpec c.c)]
@@ -139,7 +148,8 @@ def handle : Handler := fun j => do
        ("flavs", Json.arr (r.flavs.map ofStrs).toArray), ("view", ofSpec r.view),
        ("trace", Json.arr (r.trace.map ofEff).toArray), ("db", ofSpec w.db),
        ("caches", Json.arr (w.caches.map ofCache).toArray),
-       ("touch", Json.arr (w.touch.map ofTouch).toArray)]
+       ("touch", Json.arr (w.touch.map ofTouch).toArray),
+       ("dirs", Json.arr (w.dirs.map fun d => ofDir d.dir).toArray)]
   pure (Json.mkObj [("steps", Json.arr steps)])
 
 end EupsModel.Drv.C06
